@@ -597,6 +597,9 @@ func resortTop(s string) string {
 // single-assignment locals inlined.
 func (c *Ctx) fnTerms(fn ast.Node) *termCtx {
 	t := &termCtx{c: c, defs: map[types.Object]ast.Expr{}, names: map[types.Object]string{}}
+	for o, n := range c.alias {
+		t.names[o] = n
+	}
 	var ft *ast.FuncType
 	switch f := fn.(type) {
 	case *ast.FuncDecl:
